@@ -16,10 +16,10 @@ import time
 
 import z3
 
-from engine import common, po
+from engine import common, po, segments
 from harness import sessions
 
-TIERS = {'quick': ['S1', 'S2', 'S4', 'S5'], 'thorough': ['S1', 'S2', 'S3', 'S4', 'S5', 'S6']}
+TIERS = {'quick': ['S1', 'S2', 'S4', 'S5'], 'thorough': ['S1', 'S2', 'S3', 'S4', 'S5', 'S6', 'S9']}
 
 
 def analyse(name, seed=0):
@@ -95,7 +95,41 @@ def analyse(name, seed=0):
     out['seeded_bug_twin'] = res2
     out['stats']['seeded_s'] = round(dt2, 2)
     out['constraints'] = len(P.cons)
+    if model_info is None and res == 'unsat':
+        out['segments'] = analyse_segments(r['traces'])
     return out, r, model_info
+
+
+def analyse_segments(traces):
+    """the session cut at its full synchronisations (engine/segments.py): one stand-alone deadlock query per segment, the items
+    pending at every board boundary, the signatures of the segments"""
+    segs, problems = segments.segments(traces)
+    out = dict(problems=list(problems), segments=[], solver_s=0.0)
+    pend = [sg['pending'] for sg in segs if sg['index'] > 0]
+    if pend and any(p != pend[0] for p in pend):
+        out['problems'].append(f'the items pending at the board boundaries differ: {pend}')
+    out['pending_at_every_board_boundary'] = pend[0] if pend else None
+    for sg in segs:
+        a = segments.analyse(sg)
+        out['solver_s'] += a['solver_s']
+        out['segments'].append(dict(name=sg['name'], signature=segments.signature(sg), ops=a['ops'], deadlock=a['deadlock'],
+                                    completion_twin=a['completion'], nonblock_fail=a['nonblock_fail'], solver_s=a['solver_s']))
+        if a['deadlock'] != 'unsat' or a['completion'] != 'sat' or a['nonblock_fail'] not in (None, 'unsat'):
+            out['problems'].append(f'segment "{sg["name"]}": deadlock {a["deadlock"]}, completion {a["completion"]} although the whole session has no deadlock')
+    # teeth: the largest segment with one queue put deleted must have a deadlock
+    if segs and not out['problems']:
+        big = max(segs, key=lambda sg: sum(len(v) for v in sg['traces'].values()))
+        taken = {(o['obj'], o['k']) for ops in big['traces'].values() for o in ops if o['kind'] == 'q_get'}
+        puts = [o for o in big['traces'].get('main', []) if o['kind'] == 'q_put' and (o['obj'], o['k']) in taken]   # taken inside the segment
+        if puts:
+            P2 = po.PO(big['traces'], drop=('main', puts[-1]['idx']), pre=big['pre'])
+            r2, _, dt = P2.check(P2.deadlock_query())
+            out['seeded_bug_twin'] = r2
+            out['solver_s'] += round(dt, 3)
+            if r2 != 'sat':
+                out['problems'].append(f'segment twin (one put deleted) has no deadlock: {r2}')
+    out['solver_s'] = round(out['solver_s'], 2)
+    return out
 
 
 def replay_schedule(name, seed, schedule):
@@ -132,6 +166,17 @@ def _case(name):
         res.status = 'inconclusive'
         res.detail = f'vacuity twins failed: completion {out["completion_twin"]}, seeded bug {out["seeded_bug_twin"]}'
         return res
+    sg = out.get('segments')
+    if sg:
+        res.samples[0]['segments'] = [{k: x[k] for k in ('name', 'signature', 'ops', 'deadlock', 'completion_twin', 'solver_s')} for x in sg['segments']]
+        res.samples[0]['pending_at_every_board_boundary'] = sg.get('pending_at_every_board_boundary')
+        res.samples[0]['segment_problems'] = sg['problems']
+        res.stats['queries'] += 2 * len(sg['segments']) + 1
+        res.stats['solver_s'] += sg['solver_s']
+        if sg['problems']:
+            # the decomposition is an ADDITIONAL claim (any number of boards); if it cannot be established the whole-session
+            # verdict stands and the evidence says that the extension was not obtained
+            print(f'NOTE: session {name}: segment decomposition not established: {sg["problems"][:2]}')
     if out['deadlock'] == 'sat' or out.get('nonblock_fail') == 'sat':
         res.cex.append({'kind': 'schedule', 'session': name, 'seed': common.SEED, 'schedule': model['schedule'], 'cut': model['cut'],
                         'found': model.get('found', 'deadlock')})
@@ -151,15 +196,27 @@ META = dict(
     bounds=lambda tier: {'sessions': {n: d for n, d in {
         'S1': 'two passed-out boards', 'S2': 'passed-out board then a played board', 'S3': 'two played boards',
         'S4': 'three boards: played, passed out, contested auction with double and redouble',
-        'S5': 'one played board, clients arrive W S E N', 'S6': 'three played boards, clients arrive E N W S'}.items()
+        'S5': 'one played board, clients arrive W S E N', 'S6': 'three played boards, clients arrive E N W S',
+        'S9': 'five boards: played, passed out, played, passed out, played'}.items()
         if n in TIERS['thorough' if tier == 'thorough' else 'quick']},
         'schedules': 'ALL interleavings of the recorded synchronisation operations of the 9 threads (main, 4 seat threads, 4 clients) of each session',
-        'outside': 'sessions other than those listed; more than 3 boards; real TCP behaviour'},
+        'segments': 'each session is also cut at its full synchronisations (after every board\'s ready-for-cards barrier) and every segment gets a '
+                    'stand-alone deadlock query with the pending channel contents as initial state (engine/segments.py). A deadlock state of a '
+                    'session lies inside one segment (all five server threads pass every barrier generation; a parked client has consumed '
+                    'everything its seat thread sent), and what is pending at a board boundary is the same at every boundary of every session '
+                    '(checked on every run). Hence a session of ANY number of boards whose per-board segments are among the discharged ones '
+                    '(listed by signature in coverage.sessions[*].segments) has no deadlock either',
+        'outside': 'boards whose segment (sequence of synchronisation operations: who calls, who leads each trick, passed out or played, last or not) '
+                   'is not among the discharged signatures; sessions whose whole-session query was not run beyond 3 (quick) / 5 (thorough) boards; real TCP behaviour'},
     stubs=['sockets are in-memory (sendall atomic per message, recv blocks until data or peer close)', 'server.time.sleep is a no-op',
            'the bundled RandomPlay is given a private generator per client (the bundled one shares the global generator between threads)'],
     assumptions=['Kahn determinism: per-thread operation sequences do not depend on the schedule - checked on every run by recording twice (second run with injected delays) and by the single-producer/single-consumer test',
                  'CPython semantics of Event (wait passes iff the flag is set at some moment after the call), Queue (FIFO), Barrier (generation counting), Thread.join',
-                 'is_alive() results only decide whether a finished thread is joined later'],
+                 'is_alive() results only decide whether a finished thread is joined later',
+                 'for the extension to any number of boards: the synchronisation operations a thread performs between two board boundaries depend '
+                 'only on that board, the decisions taken on it and whether it is the last one (the code holds no other cross-board state that '
+                 'steers synchronisation; supported by identical signatures of equal boards at different positions, e.g. the prologue and the '
+                 'passed-out boards of S1, S2, S9)'],
     rule='one SMT problem per session over all interleavings; states = recorded operations, transitions = ordering/enabledness constraints',
     explanation='partial-order SMT encoding of the real threads\' recorded synchronisation traces; deadlock query unsat; twins sat',
     required_outcomes=['session analysed'],
@@ -167,7 +224,10 @@ META = dict(
 
 
 def extra_cov(tier, results):
-    return {'sessions': [r.samples[0] for r in results if r.samples]}
+    sess = [r.samples[0] for r in results if r.samples]
+    sigs = sorted({x['signature'] for sm in sess for x in sm.get('segments', [])})
+    return {'sessions': sess, 'distinct_segment_signatures_discharged': sigs,
+            'segment_decomposition_established_for': [sm['session'] for sm in sess if sm.get('segments') and not sm.get('segment_problems')]}
 
 
 META['extra_cov'] = extra_cov
